@@ -88,6 +88,10 @@ class ExprMixin:
                 pass
         if opname == "Add" and l.op in ("Tuple", "List") and r.op == l.op:
             return self.mk(l.op, l.args + r.args, None, site)
+        if opname == "BitOr" and (l.op == "Dict" or r.op == "Dict" or (l.op == "Phi" and r.op == "Phi")):
+            m = self._dict_union(l, r, site)
+            if m is not None:
+                return m
         if opname == "Add" and l.op == "FStr" or (opname == "Add" and r.op == "FStr"):
             return self.fstr([l, r], site)
         if opname == "Add" and ((l.op == "Const" and isinstance(l.attr, str)) or
@@ -97,6 +101,27 @@ class ExprMixin:
         if extra:
             n.extra = extra
         return n
+
+    def _dict_union(self, l: Node, r: Node, site, depth=0):
+        """l | r for dict values with statically known keys (either side may be selected by a branch)"""
+        if depth > 4:
+            return None
+        if l.op == "Phi":
+            a = self._dict_union(l.args[1], r, site, depth + 1)
+            b = self._dict_union(l.args[2], r, site, depth + 1)
+            return None if a is None or b is None else self.phi(l.args[0], a, b, site)
+        if r.op == "Phi":
+            a = self._dict_union(l, r.args[1], site, depth + 1)
+            b = self._dict_union(l, r.args[2], site, depth + 1)
+            return None if a is None or b is None else self.phi(r.args[0], a, b, site)
+        if l.op != "Dict" or r.op != "Dict":
+            return None
+        new = l
+        for kd, v in self.dict_items(r):
+            if kd[0] != "k":
+                return None
+            new = self.dict_set(new, kd[1], v, site)
+        return self.mk("Dict", new.args, new.attr, site) if new is l else new
 
     def fstr(self, parts, site):
         flat = []
@@ -235,24 +260,25 @@ class ExprMixin:
             if l.op == "Const" and r.op == "Const":
                 same = l.attr is r.attr or (l.attr == r.attr and type(l.attr) is type(r.attr))
                 return self.const(same if opname == "Is" else not same, site)
-        if opname in ("In", "NotIn") and l.op == "Const":
+        if opname in ("In", "NotIn") and self.const_key(l) is not self.NOKEY:
+            lk = self.const_key(l)
             keys = None
             c = r
             if c.op == "DictKeys":
                 c = c.args[0]
             if c.op == "Dict" and all(k[0] == "k" for k in c.attr):
                 keys = [k[1] for k in c.attr]
-            elif c.op in ("Tuple", "List") and all(a.op == "Const" for a in c.args):
-                keys = [a.attr for a in c.args]
+            elif c.op in ("Tuple", "List") and all(self.const_key(a) is not self.NOKEY for a in c.args):
+                keys = [self.const_key(a) for a in c.args]
             elif c.op == "Const" and isinstance(c.attr, (str, tuple)):
                 try:
                     keys = c.attr
-                    res = l.attr in keys
+                    res = lk in keys
                     return self.const(res if opname == "In" else not res, site)
                 except Exception:
                     keys = None
             if keys is not None:
-                res = l.attr in keys
+                res = lk in keys
                 return self.const(res if opname == "In" else not res, site)
         if opname in ("Eq", "NotEq") and l.op == "Const" and isinstance(l.attr, str) and \
                 r.op in ("Tuple", "List"):
@@ -376,8 +402,9 @@ class ExprMixin:
             else:
                 kn = self.val(k, fr, st)
                 vn_ = self.eval(v, fr, st)
-                if kn.op == "Const":
-                    keys.append(("k", kn.attr))
+                ck_ = self.const_key(kn)
+                if ck_ is not self.NOKEY:
+                    keys.append(("k", ck_))
                     args.append(vn_)
                 else:
                     keys.append(("n",))
@@ -485,8 +512,26 @@ class ExprMixin:
         idx = self.val(e.slice, fr, st)
         return self.subscript(base_id, idx, st, fr, site)
 
+    def select_by_pc(self, n: Node, st: St) -> Node:
+        """the alternative of a branch-selected value that the current path has already decided"""
+        guard = 0
+        while n.op == "Phi" and guard < 8:
+            guard += 1
+            c = n.args[0]
+            pol = None
+            for cc, p_ in st.pc:
+                if cc is c:
+                    pol = p_
+                    break
+            if pol is None:
+                break
+            n = n.args[1] if pol else n.args[2]
+        return n
+
     def subscript(self, base_id: Node, idx: Node, st: St, fr: Frame, site, _depth=0) -> Node:
         base = self.res(base_id, st)
+        if base.op == "Phi" and self.const_key(idx) is not self.NOKEY:
+            base = self.select_by_pc(base, st)
         if base.op in ("Tuple", "List") and not any(a.op == "Starred" for a in base.args):
             if idx.op == "Const" and isinstance(idx.attr, int) and not isinstance(idx.attr, bool):
                 if -len(base.args) <= idx.attr < len(base.args):
@@ -497,13 +542,14 @@ class ExprMixin:
                     return self.mk(base.op, base.args[sl], None, site)
                 except Exception:
                     pass
-        if base.op == "Dict" and idx.op == "Const":
-            v = self.dict_get(base, idx.attr)
+        if base.op == "Dict" and self.const_key(idx) is not self.NOKEY:
+            ik = self.const_key(idx)
+            v = self.dict_get(base, ik)
             if v is not None:
                 return v
             if not any(k[0] in ("**", "n") for k in base.attr):
-                self.effect("keyerror", site, st, fr, key=idx.attr)
-                return self.unknown(f"missing-key:{idx.attr!r}", site)
+                self.effect("keyerror", site, st, fr, key=ik)
+                return self.unknown(f"missing-key:{ik!r}", site)
         if base.op == "Dict" and idx.op in IDENTITY_OPS and any(k[0] == "n" for k in base.attr) and \
                 not any(k[0] == "**" for k in base.attr):
             hit, i = None, 0
@@ -610,7 +656,7 @@ class ExprMixin:
                                      self.mk("IterElem", (it.args[0],), None, site)), None, site)
         return self.mk("IterElem", (it,), None, site)
 
-    def known_items(self, it: Node, limit=16):
+    def known_items(self, it: Node, limit=64):
         """explicit element list of a small literal sequence, else None"""
         depth_ok = True
         if it.op in ("Tuple", "List") and not any(a.op == "Starred" for a in it.args):
@@ -618,7 +664,7 @@ class ExprMixin:
         if it.op in ("Dict", "DictKeys") and depth_ok:
             d = it if it.op == "Dict" else it.args[0]
             if d.op == "Dict" and not any(k[0] == "**" for k in d.attr) and len(d.attr) <= limit:
-                return [self.const(kd[1]) if kd[0] == "k" else d.args[i] for kd, i in self._dict_key_slots(d)]
+                return [self.key_node(kd[1], it.site) if kd[0] == "k" else d.args[i] for kd, i in self._dict_key_slots(d)]
         if it.op == "Zip":
             cols = [self.known_items(a, limit) for a in it.args]
             if all(c is not None for c in cols) and cols:
@@ -650,7 +696,7 @@ class ExprMixin:
         if it.op == "DictItems" and it.args[0].op == "Dict":
             d = it.args[0]
             if all(k[0] == "k" for k in d.attr) and len(d.attr) <= limit:
-                return [self.mk("Tuple", (self.const(k[1]), v), None, it.site)
+                return [self.mk("Tuple", (self.key_node(k[1], it.site), v), None, it.site)
                         for k, v in self.dict_items(d)]
         if it.op == "Const" and isinstance(it.attr, tuple) and len(it.attr) <= limit:
             return [self.const(x) for x in it.attr]
@@ -718,10 +764,11 @@ class ExprMixin:
                     if kind == "dict":
                         k = self.val(e.key, fr, st)
                         v = self.eval(e.value, fr, st)
-                        if k.op != "Const":
+                        ck_ = self.const_key(k)
+                        if ck_ is self.NOKEY:
                             ok = False
                             break
-                        keys.append(("k", k.attr))
+                        keys.append(("k", ck_))
                         out.append(v)
                     else:
                         out.append(self.eval(e.elt, fr, st))
